@@ -6,6 +6,7 @@ import (
 	"fmt"
 	"sort"
 	"strings"
+	"time"
 
 	"github.com/gammazero/nexus/v3/wamp"
 )
@@ -50,6 +51,9 @@ func (o SOp) String() string {
 		}
 		if len(o.Opts) > 0 {
 			s += CanonVal(o.Opts)
+		}
+		if o.Kind == "meta" {
+			s += CanonVal(o.Args) + CanonVal(o.Kw)
 		}
 		if o.Kind == "unsub" || o.Kind == "unreg" || o.Kind == "yield" || o.Kind == "inverr" || o.Kind == "cancel" {
 			s += fmt.Sprintf("[k=%d,var=%d]", o.K, o.Var)
@@ -181,7 +185,10 @@ func (q *Seq) Exec(op SOp) bool {
 		if !q.sendGated(s, idx, r, what, msg) {
 			return true
 		}
-		exp, _ := m.Publish(idx, req, msg.Options, string(msg.Topic), modelArgs, modelKw, nowMs)
+		exp, psym := m.Publish(idx, req, msg.Options, string(msg.Topic), modelArgs, modelKw, nowMs)
+		if psym != 0 {
+			r.B.pubTopic[psym] = string(msg.Topic)
+		}
 		if len(exp) > 1 {
 			c.Probe("publish_multi_recipient")
 		}
@@ -239,8 +246,13 @@ func (q *Seq) Exec(op SOp) bool {
 			return true
 		}
 		q.Compare(r, what+fmt.Sprintf("->req %d", creq), m.Cancel(idx, creq, op.Opts), nil)
+	case "sleep":
+		time.Sleep(time.Duration(op.K) * time.Millisecond)
+		q.Settle()
+		q.Compare(r, what, nil, nil)
 	case "meta":
 		args, refs := q.resolveMetaArgs(r, op.Args)
+		op.Kw = q.resolveHistKw(r, op.Kw, refs)
 		if !q.sendGated(s, idx, r, what, &wamp.Call{Request: req, Options: wamp.Dict{}, Procedure: wamp.URI(op.URI), Arguments: args, ArgumentsKw: op.Kw}) {
 			return true
 		}
@@ -254,6 +266,9 @@ func (q *Seq) Exec(op SOp) bool {
 		}
 		if render != nil {
 			q.metaRender[invKey{idx, req}] = render
+		}
+		if strings.Contains(want, "events:[P#") {
+			c.Probe("history_query_nonempty")
 		}
 		exp := []Exp{{To: idx, Text: want}}
 		if strings.Contains(want, "|") {
@@ -689,4 +704,67 @@ func (q *Seq) resolveMetaArgs(r *SeqRealm, in wamp.List) (wamp.List, map[int]Met
 		}
 	}
 	return out, refs
+}
+
+// resolveHistKw replaces "@P:k[:type]" values of the *_publication filters by
+// the actual id of the k-th retained publication of the subscription named in
+// args[0], in the requested numeric representation, and records the model
+// meaning in refs[100..103].
+func (q *Seq) resolveHistKw(r *SeqRealm, kw wamp.Dict, refs map[int]MetaRef) wamp.Dict {
+	if kw == nil {
+		return nil
+	}
+	out := wamp.Dict{}
+	for k, v := range kw {
+		out[k] = v
+	}
+	sub := r.M.subBySym(refs[0].Sym)
+	for _, key := range []string{"from_time", "after_time", "before_time", "until_time"} {
+		v, ok := out[key].(string)
+		if !ok || !strings.HasPrefix(v, "@T:") {
+			continue
+		}
+		var k int
+		fmt.Sscanf(v[3:], "%d", &k)
+		t := int64(q.C.S.Elapsed() / time.Millisecond)
+		if sub != nil && sub.Hist != nil && len(sub.Hist.Entries) > 0 {
+			t = sub.Hist.Entries[k%len(sub.Hist.Entries)].T
+		}
+		out[key] = time.UnixMilli(HistEpoch + t).UTC().Format(time.RFC3339Nano)
+	}
+	for i, key := range []string{"from_publication", "after_publication", "before_publication", "until_publication"} {
+		v, ok := out[key].(string)
+		if !ok || !strings.HasPrefix(v, "@P:") {
+			continue
+		}
+		var k int
+		typ := "id"
+		parts := strings.Split(v[3:], ":")
+		fmt.Sscanf(parts[0], "%d", &k)
+		if len(parts) > 1 {
+			typ = parts[1]
+		}
+		var actual wamp.ID = 999999
+		if sub != nil && sub.Hist != nil && len(sub.Hist.Entries) > 0 {
+			e := sub.Hist.Entries[k%len(sub.Hist.Entries)]
+			if a, ok := r.B.pubRev[e.PubSym]; ok {
+				actual = a
+				refs[100+i] = MetaRef{Class: "P", Sym: e.PubSym}
+			}
+		}
+		if _, ok := refs[100+i]; !ok {
+			refs[100+i] = MetaRef{Class: "P", Sym: -1} // names nothing that is retained
+		}
+		switch typ {
+		case "u64":
+			out[key] = uint64(actual)
+		case "i64":
+			out[key] = int64(actual)
+		case "f64":
+			out[key] = float64(actual)
+		default:
+			out[key] = actual
+		}
+	}
+	return out
 }
